@@ -142,7 +142,7 @@ fn pattern_len(rng: &mut Rng, cap: usize) -> usize {
 }
 
 const TAG_NAMES: &[&str] = &[
-    "N", "V", "名詞", "動詞", "助詞", "x/y", "a b", "カセー", "\\", "A-B", "t|u", "𠮷", "é", "n1", "n2", "n3", "n4",
+    "N", "V", "名詞", "動詞", "助詞", "x/y", "a b", "カセー", "\\", "A-B", "t|u", "𠮷", "é", "n1", "n2", "n3", "n4", "名\0詞", " lead", "trail\u{3000}", "",
     "n5", "n6", "n7",
 ];
 
@@ -423,7 +423,15 @@ pub fn gen_case(rng: &mut Rng, opts: &GenOpts) -> Case {
                 }
                 let mut v: Vec<TagWeight> = rs
                     .into_iter()
-                    .map(|r| TagWeight { rel_position: r, weights: (0..n_class).map(|_| gen_weight(rng, tclass)).collect() })
+                    .map(|r| {
+                        let mut weights: Vec<i32> = (0..n_class).map(|_| gen_weight(rng, tclass)).collect();
+                        // classes at the end of the vector that this n-gram does not vote on
+                        if n_class > 0 && rng.chance(1, 4) {
+                            let keep = rng.below(n_class);
+                            weights[keep..].iter_mut().for_each(|w| *w = 0);
+                        }
+                        TagWeight { rel_position: r, weights }
+                    })
                     .collect();
                 // the file format does not prescribe an order of the offsets of one n-gram
                 if rng.chance(1, 3) {
@@ -442,7 +450,16 @@ pub fn gen_case(rng: &mut Rng, opts: &GenOpts) -> Case {
                 tags,
                 char_ngram_model,
                 type_ngram_model,
-                bias: (0..n_class).map(|_| gen_weight(rng, tclass)).collect(),
+                bias: match rng.below(8) {
+                    0 => vec![0; n_class],
+                    1 if n_class > 1 => {
+                        let mut b: Vec<i32> = (0..n_class).map(|_| gen_weight(rng, tclass)).collect();
+                        let keep = rng.urange(1, n_class - 1);
+                        b[keep..].iter_mut().for_each(|w| *w = 0);
+                        b
+                    }
+                    _ => (0..n_class).map(|_| gen_weight(rng, tclass)).collect(),
+                },
             });
         }
         // rare: a candidate whose score is a 32-bit extreme (no n-gram touches that model, so no sum can overflow)
